@@ -138,6 +138,16 @@ def r_deleg(f):
                         inner = strip(inner[3][0]) if inner[0] == "call" and inner[2] == "branch" and inner[3] else ("?",)
                     if inner[0] == "call" and inner[2] == "checked_sub" and dim_expr(inner[3][0]) and const_usize(inner[3][1]) == 1:
                         ok = via_checked = True      # Some(i) = dim.checked_sub(1): the None arm is the emptiness guard
+                if not ok and cb is not b and a1 == ("param", 2):
+                    # `self.dim.checked_sub(1).map(move |last| self.remove_*(last))`: the closure's parameter is the Some payload
+                    db0 = Dfx(b)
+                    for _, tm_, fnm_ in b.calls():
+                        if fnm_ and fnm_["name"] in ("map", "and_then") and (fnm_.get("path") or "").startswith("core::option::") and tm_["args"]:
+                            rc_ = strip(db0.expr(tm_["args"][0]))
+                            if rc_[0] == "call" and rc_[2] == "checked_sub" and len(rc_[3]) == 2 and const_usize(rc_[3][1]) == 1:
+                                dm_ = strip(rc_[3][0])
+                                if is_self_field(dm_, idx, [("param", 1), ("deref", ("param", 1))]) or (dm_[0] == "call" and dm_[2] == dimname):
+                                    ok = via_checked = True
                 R.inst(b.ident, "%s(self.%s - 1): index argument is %s" % (want, dimname, show(a1)), ok)
                 if not ok:
                     R.fail(b.ident, "arg:%s" % show(a1), "%s calls %s with index %s, expected self.%s - 1" % (b.ident, want, show(a1), dimname), cb.where(t["span"]))
